@@ -24,6 +24,9 @@ import (
 func init() {
 	// the client package installs a logrus logger at warn level; the
 	// simulation wants silence (log.Panic still panics)
+	if os.Getenv("VERIF_PLOG") != "" {
+		return // debugging aid: keep the library's logger (stderr)
+	}
 	plog.Set(nil)
 }
 
